@@ -189,7 +189,9 @@ class Parser:
 
     def open_file(self, fn: str):
         try:
-            with open(fn, "r", encoding="utf-8") as f:
+            # newline="" - no newline translation, so that open() sees exactly the
+            # characters loads() would be given (a CR inside a quoted string stays a CR)
+            with open(fn, "r", encoding="utf-8", newline="") as f:
                 return f.read()
         except UnicodeDecodeError as ex:
             log.debug(ex)
